@@ -153,6 +153,11 @@ pub(crate) fn read_tags_array(
     // NOTE: we cannot write any tag strings until after we have counted the tags.
     // (our tags structure is optimized for reading, not writing)
     let num_tags: usize = count_tags(input, *inposp)?;
+    // The section length, the number of tags, every tag offset, every string count and
+    // every string length are stored as u16, and none of them can exceed the section length.
+    if 4 + num_tags * 2 > u16::MAX as usize {
+        return Err(InnerError::OutOfRange(num_tags).into());
+    }
     put(output, 2, (num_tags as u16).to_ne_bytes().as_slice())?;
 
     // Case where we have no tags
@@ -182,6 +187,9 @@ pub(crate) fn read_tags_array(
 
         // Read the tag (bumps inpos and outpos)
         read_tag(input, inposp, output, &mut outpos)?;
+        if outpos > u16::MAX as usize {
+            return Err(InnerError::OutOfRange(outpos).into());
+        }
         eat_whitespace(input, inposp);
 
         // Check what is next
@@ -267,6 +275,9 @@ pub(crate) fn read_tag(
     let mut num_strings: usize = 1;
     loop {
         // read string
+        if output.len() < *outposp + 2 {
+            return Err(InnerError::BufferTooSmall(*outposp + 2).into());
+        }
         let (inlen, outlen) = json_unescape(&input[*inposp..], &mut output[*outposp + 2..])?;
         // write the length before it
         put(output, *outposp, (outlen as u16).to_ne_bytes().as_slice())?;
@@ -311,6 +322,9 @@ pub(crate) fn read_content(
     verify_char(input, b'"', inposp)?;
 
     // Place content 4 bytes beyond tags, to reserve space for content length
+    if output.len() < after_tags + 4 {
+        return Err(InnerError::BufferTooSmall(after_tags + 4).into());
+    }
     let (inlen, outlen) = json_unescape(&input[*inposp..], &mut output[after_tags + 4..])?;
     *inposp += inlen + 1; // +1 to pass the end quote
 
